@@ -230,3 +230,202 @@ def rule_range(text):
         apps.append(_app("R-range", text, rs, end, new,
                          "shim contract: least/greatest key of the map inside the range and its value"))
         text = text[:rs] + new + text[end:]
+
+
+# ---------------------------------------------------------------- slices and little-endian codecs
+def _index_sites(m):
+    """Yield (open_bracket, close_bracket) of index expressions `recv[ ... ]` (not array literals /
+    types / attributes), last first."""
+    out = []
+    for i, ch in enumerate(m):
+        if ch != "[":
+            continue
+        j = i - 1
+        while j >= 0 and m[j].isspace():
+            j -= 1
+        if j < 0:
+            continue
+        if not (m[j].isalnum() or m[j] in "_)]"):
+            continue
+        # keyword before '[' (e.g. `in [..]`, `return [..]`) is not a receiver
+        k = j
+        while k >= 0 and (m[k].isalnum() or m[k] == "_"):
+            k -= 1
+        word = m[k + 1:j + 1]
+        if word in ("in", "return", "mut", "let", "else", "match", "if", "as"):
+            continue
+        out.append((i, match_close(m, i)))
+    return out[::-1]
+
+
+def rule_sub(text):
+    """rvalue `S[a..b]`, `S[..b]`, `S[a..]`, `S[..]` (optionally `&`-prefixed) -> slice_subrange(S, a, b)."""
+    apps = []
+    while True:
+        m = mask(text)
+        hit = None
+        for ob, cb in _index_sites(m):
+            inner = text[ob + 1:cb]
+            im = m[ob + 1:cb]
+            if "..=" in im:
+                continue
+            parts = split_top_level(im, inner, "..")
+            if len(parts) != 2:
+                continue
+            # lvalue uses are handled by R-cpy
+            after = m[cb + 1:cb + 40].lstrip()
+            if after.startswith(".copy_from_slice") or after.startswith(".fill(") or re.match(r"=[^=]", after):
+                continue
+            rs = _receiver_start(m, ob)
+            recv = text[rs:ob].strip()
+            if not recv:
+                continue
+            lo = parts[0].strip() or "0"
+            hi = parts[1].strip()
+            # strip one leading `&` / `&mut` in front of the receiver
+            pre = rs
+            k = rs - 1
+            while k >= 0 and m[k].isspace():
+                k -= 1
+            if k >= 0 and m[k] == "&":
+                pre = k
+            if m[max(0, pre - 4):pre].strip().endswith("mut"):
+                continue
+            base = recv
+            if not hi:
+                hi = "%s.len()" % base
+            new = "slice_subrange(%s, %s, %s)" % (_as_slice(base), lo, hi)
+            hit = (pre, cb + 1, new)
+            break
+        if not hit:
+            return text, apps
+        a, b, new = hit
+        apps.append(_app("R-sub", text, a, b, new, "vstd spec of slice_subrange"))
+        text = text[:a] + new + text[b:]
+
+
+_VEC_RECEIVERS = set()
+
+
+def _as_slice(base):
+    # Vec receivers need an explicit as_slice(); units list them in UNIT['vec_receivers']
+    if base in _VEC_RECEIVERS:
+        return base + ".as_slice()"
+    return base
+
+
+def rule_le(text):
+    """uN::from_le_bytes(E.try_into().X) -> uN_from_le(E);  uN::from_le_bytes([a, b]) -> u16_from_le2(a, b);
+    uN::from_le_bytes(ident) -> uN_from_le_arr(ident)."""
+    apps = []
+    while True:
+        m = mask(text)
+        hit = None
+        for mm in re.finditer(r"\b(u16|u32|u64)\s*::\s*from_le_bytes\s*\(", m):
+            op = mm.end() - 1
+            cl = match_close(m, op)
+            arg = text[op + 1:cl].strip()
+            am = mask(arg)
+            ty = mm.group(1)
+            t1 = re.search(r"\.\s*try_into\s*\(\s*\)\s*\.\s*(ok\s*\(\s*\)\s*\?|unwrap\s*\(\s*\))\s*,?\s*$", am)
+            if t1:
+                e = arg[:t1.start()].strip()
+                new = "%s_from_le(%s)" % (ty, e)
+            elif am.startswith("["):
+                inner = arg[1:am.rindex("]")]
+                parts = [x.strip() for x in split_top_level(mask(inner), inner, ",") if x.strip()]
+                new = "%s_from_le%d(%s)" % (ty, len(parts), ", ".join(parts))
+            elif re.fullmatch(r"\w+", arg):
+                new = "%s_from_le_arr(%s)" % (ty, arg)
+            else:
+                continue
+            hit = (mm.start(), cl + 1, new)
+            break
+        if not hit:
+            return text, apps
+        a, b, new = hit
+        apps.append(_app("R-le", text, a, b, new, "shim: little-endian value of the bytes (std from_le_bytes); length precondition replaces the infallible try_into"))
+        text = text[:a] + new + text[b:]
+
+
+def rule_tovec(text):
+    apps = []
+    while True:
+        m = mask(text)
+        mm = re.search(r"\.\s*to_vec\s*\(\s*\)", m)
+        if not mm:
+            return text, apps
+        rs = _receiver_start(m, mm.start())
+        recv = text[rs:mm.start()].strip()
+        new = "slice_to_vec(%s)" % recv
+        apps.append(_app("R-vec", text, rs, mm.end(), new, "vstd spec of slice_to_vec"))
+        text = text[:rs] + new + text[mm.end():]
+
+
+def rule_tryinto_letelse(text):
+    """`let Ok(x) = E.try_into() else { ... };` -> `let Ok(x) = try_into_array8(E) else { ... };`"""
+    apps = []
+    while True:
+        m = mask(text)
+        mm = re.search(r"let\s+Ok\s*\(\s*\w+\s*\)\s*=\s*", m)
+        hit = None
+        for mm in re.finditer(r"let\s+Ok\s*\(\s*\w+\s*\)\s*=\s*", m):
+            rest = m[mm.end():]
+            t = re.search(r"\.\s*try_into\s*\(\s*\)\s*else\b", rest)
+            if not t:
+                continue
+            semi = rest.find(";")
+            if semi >= 0 and t.start() > semi:
+                continue
+            e = text[mm.end():mm.end() + t.start()].strip()
+            a = mm.end()
+            b = mm.end() + t.start() + len(re.match(r"\.\s*try_into\s*\(\s*\)", rest[t.start():]).group(0))
+            hit = (a, b, "try_into_array8(%s)" % e)
+            break
+        if not hit:
+            return text, apps
+        a, b, new = hit
+        apps.append(_app("R-tryinto", text, a, b, new, "shim: <[u8; 8]>::try_from(&[u8]) succeeds iff the length is 8"))
+        text = text[:a] + new + text[b:]
+
+
+def rule_slice_ne(text):
+    """`A != B[..]` / `A == B` on byte slices where one side is a slice_subrange(...) call:
+    -> !slice_eq(A, B) / slice_eq(A, B). Only the form `slice_subrange(..) (!=|==) X[..]` / const."""
+    apps = []
+    while True:
+        m = mask(text)
+        hit = None
+        for mm in re.finditer(r"slice_subrange\s*\(", m):
+            op = mm.end() - 1
+            cl = match_close(m, op)
+            t = re.match(r"\s*(!=|==)\s*", m[cl + 1:])
+            if not t:
+                continue
+            rhs_start = cl + 1 + t.end()
+            # rhs: up to the next `{`, `&&`, `||`, `)` at depth 0 or `;`
+            d = 0
+            j = rhs_start
+            while j < len(m):
+                ch = m[j]
+                if ch in "([":
+                    d += 1
+                elif ch in ")]":
+                    if d == 0:
+                        break
+                    d -= 1
+                elif d == 0 and (ch in "{;," or m.startswith("&&", j) or m.startswith("||", j)):
+                    break
+                j += 1
+            rhs = text[rhs_start:j].strip()
+            if rhs.endswith("[..]"):
+                rhs = rhs[:-4] + ".as_slice()"
+            lhs = text[mm.start():cl + 1]
+            neg = "!" if t.group(1) == "!=" else ""
+            hit = (mm.start(), j, "%sslice_eq(%s, %s) " % (neg, lhs, rhs))
+            break
+        if not hit:
+            return text, apps
+        a, b, new = hit
+        apps.append(_app("R-seq", text, a, b, new, "shim: byte-wise slice equality (PartialEq for [u8])"))
+        text = text[:a] + new + text[b:]
